@@ -1253,6 +1253,19 @@ class Executor:
                     lo, hi = smt.bounds(y)
                     if lo is not None and lo >= 0 and hi is not None and hi < (1 << _tzbits(x)):
                         return smt.wrap_s(smt.add(smt.to_u(x, bits), y), bits)
+            if is_sym(a) and is_sym(b):
+                # both operands provably in [0, 2^k) with k <= 12: exact bit decomposition
+                (alo, ahi), (blo, bhi) = smt.bounds(a), smt.bounds(b)
+                small = None not in (alo, ahi, blo, bhi) and alo >= 0 and blo >= 0 and max(ahi, bhi) < (1 << 12)
+                if not small and not self.feasible(smt.not_(smt.and_(smt.between(0, a, 127), smt.between(0, b, 127)))):
+                    small, ahi, bhi = True, 127, 127      # the path condition confines both to 7 bits (decided by the solver)
+                if small:
+                    k = max(ahi, bhi).bit_length(); r = 0
+                    for i in range(k):
+                        s = smt.add(smt.fmod(smt.fdiv(a, 1 << i), 2), smt.fmod(smt.fdiv(b, 1 << i), 2))
+                        bit = {"or": smt.b2i(smt.ge(s, 1)), "and": smt.b2i(smt.ge(s, 2)), "xor": smt.fmod(s, 2)}[op]
+                        r = smt.add(r, smt.mul(bit, 1 << i))
+                    return r
             raise Unsupported("bitwise %s on symbolic operands%s" % (op, where))
         raise Unsupported("arith op %s" % op)
     def _srcline(self, ins):
